@@ -858,8 +858,8 @@ class Machine:
 
     def op_write_reg(self):
         s = self._pick()
-        if len(s.model) > 600:
-            return self.op_write_fits()
+        if len(s.model) > 600 and not (len(s.model) <= 2500 and self.ch.chance("big_reg", 1, 4)):
+            return self.op_write_fits()      # (DS9 export and its decoding cost ~1 ms per cell: large ones only sometimes)
         path = self._path("reg")
         via = self.ch.draw("reg_via", 2)
         self.trace.append("#%d.write_reg()%s" % (self.slots.index(s), " via mim2reg" if via else ""))
